@@ -29,6 +29,12 @@ def run_table(tier, seed):
                         sc = G.scalings_of(spec, (0, 1))[k % 2]
                         k += 1
                         out.append({"t": "run", "spec": sp, "cfg": c, "sc": sc})
+    # tiny initial penalties (below the machine epsilon of the working precision) and single precision
+    from pygradflow.params import Precision
+    for spec in specs[:3]:
+        for pen in G.R.PENALTIES:
+            out.append({"t": "run", "spec": spec, "cfg": {"penalty": pen, "iteration_limit": 80, "params": {"rho": 1e-17}}, "sc": None})
+            out.append({"t": "run", "spec": spec, "cfg": {"penalty": pen, "iteration_limit": 80, "params": {"rho": 1e-8, "precision": "Single"}}, "sc": None})
     # norm-type family: several near-equal multipliers x a fine logarithmic grid of rho0 (8 values per decade)
     grid = [10.0 ** (e / 8.0) for e in range(-32, 1)] if tier == "thorough" else [10.0 ** (e / 8.0) for e in range(-24, -7)]
     for spec in G.multi_multiplier_specs():
